@@ -290,6 +290,13 @@ func init() {
 		if u, ok := fr.i.nativeURL(a[0].(*value)); ok {
 			return u.Port()
 		}
+		f := fr.i.urlFields(a[0].(*value))
+		if f[1].IsConst() {
+			return (&url.URL{Host: f[1].S}).Port()
+		}
+		if pt := fr.i.m.portOf(f[1]); pt != nil {
+			return strVal(pt)
+		}
 		panic(unmodelled{"URL.Port symbolic"})
 	})
 	reg("(*net/url.URL).IsAbs", func(fr *frame, a []value) value {
